@@ -305,10 +305,18 @@ def run(prog, chk):
             own = "tail" if opn == "push" else "head"
             # the ticket variable is whatever the CAS expects as the old value of the ring index
             exp = set(q.no_casts(f.r(q.call_args(f, c_)[1])) for c_ in cas if len(q.call_args(f, c_)) >= 2)
-            tick = [b for b in f.blocks.values() if b.get("cond") is not None and
-                    any(re.fullmatch(r"\(\w+->%s != %s\)" % (own, re.escape(x)), q.no_casts(f.r(b["cond"]))) or
-                        re.fullmatch(r"\(%s != \w+->%s\)" % (re.escape(x), own), q.no_casts(f.r(b["cond"]))) for x in exp)]
-            if not err and (not tick or not all(f.dominates_pos((t["id"], 0), f.node_pos(c)) for t in tick for c in cas)):
+            def ticket_ok(c_):
+                # a dominating branch edge on which `node->tail == <expected>` holds, however the test is spelled
+                for a_ in fin.dominating_atoms(f, f.node_pos(c_)):
+                    if a_[0] == "case":
+                        continue
+                    cn = fin._canon(f, a_[0], a_[1])
+                    if cn[0] != "val" and cn[1] == "==":
+                        sides = {q.no_casts(cn[0]), q.no_casts(cn[2])}
+                        if any(x in sides for x in exp) and any(re.fullmatch(r"\w+->%s" % own, y) for y in sides):
+                            return True
+                return False
+            if not err and (not cas or not all(ticket_ok(c_) for c_ in cas)):
                 err = "the slot ticket (node->%s) is not checked before the CAS" % own
             if not err:
                 # the CAS result is compared with the expected value
